@@ -193,6 +193,11 @@ class Subject:
         except Exception as e:
             d = None
             out.append(("to_dict-raised:" + type(e).__name__, "*", repr(e)))
+        try:
+            dc = m.to_dict()  # default casing (camelCase keys)
+        except Exception as e:
+            dc = None
+            out.append(("to_dict-raised:" + type(e).__name__, "*", repr(e)))
         for g, members in self.mi.oneofs.items():
             want = sel_model[g]
             want_name = self.names[want] if want else ""
@@ -222,6 +227,13 @@ class Subject:
                 present = [keys[k] for k in d if k in keys]
                 if set(present) != ({want} if want else set()):
                     out.append((prefix + "to_dict-members-wrong", g, f"in dict {present} model {want}"))
+            if dc is not None:
+                # camelCase keys: matched to members by their letters and digits only (no re-implementation of the casing)
+                norm = lambda s_: s_.replace("_", "").lower()
+                ckeys = {norm(self.names[n]): n for n in members}
+                present = [ckeys[norm(k)] for k in dc if norm(k) in ckeys]
+                if set(present) != ({want} if want else set()):
+                    out.append((prefix + "to_dict-camel-members-wrong", g, f"in dict {present} model {want}"))
         return out
 
 
